@@ -49,7 +49,7 @@ pub enum Ev {
     Find { ids: Option<Vec<Vec<u8>>>, rp: String },
     /// `held`: what the backing store held when it answered (shipped backends only)
     FindRet { result: Result<Vec<FoundCred>, u8>, injected: bool, held: Option<Vec<(Vec<u8>, String)>> },
-    Save { cred: CredSnap, rk: bool, user_id: Vec<u8>, rp_id: String },
+    Save { cred: CredSnap, rk: bool, user_id: Vec<u8>, rp_id: String, rp_name: Option<String>, user_name: Option<String>, user_display: Option<String> },
     SaveRet { result: Result<(), u8>, injected: bool },
     Update { cred: CredSnap },
     UpdateRet { result: Result<(), u8>, injected: bool },
@@ -361,6 +361,9 @@ impl CredentialStore for Seam {
                 rk: options.rk,
                 user_id: user.id.to_vec(),
                 rp_id: rp.id.clone(),
+                rp_name: rp.name.clone(),
+                user_name: user.name.clone(),
+                user_display: user.display_name.clone(),
             },
         );
         YieldN(pre).await;
@@ -678,14 +681,28 @@ pub const RPS: &[Rp] = &[
     // internationalised hosts: the origin a relying party configures is the ASCII serialisation
     Rp { url: Some("https://xn--bcher-kva.example"), rp_id: Some("xn--bcher-kva.example"), effective: "xn--bcher-kva.example", origin: "https://xn--bcher-kva.example" },
     Rp { url: Some("https://www.b\u{fc}cher.example:8443"), rp_id: None, effective: "www.xn--bcher-kva.example", origin: "https://www.xn--bcher-kva.example:8443" },
+    // a second Android app whose certificate fingerprint is full of the sextets on which base64 and base64url differ
+    Rp { url: None, rp_id: Some("example.org"), effective: "example.org", origin: "android:apk-key-hash:" },
 ];
+
+/// ++++////Pj4+... in base64, ----____Pj4-... in base64url
+pub const ANDROID_FP2: &str =
+    "FB:EF:BE:FF:FF:FF:3E:3E:3E:3E:3E:3E:3E:3E:3E:3E:F8:FF:BF:F8:FF:BF:F8:FF:BF:F8:FF:BF:F8:FF:BF:A9";
+
+fn android_fp(rp: &Rp) -> &'static str {
+    if rp.effective == "example.net" {
+        ANDROID_FP
+    } else {
+        ANDROID_FP2
+    }
+}
 
 /// The origin string a relying party expects in clientDataJSON for this directory entry.
 pub fn expected_origin(rp: &Rp) -> String {
     match rp.url {
         Some(_) => rp.origin.to_owned(),
         None => {
-            let fp: Vec<u8> = ANDROID_FP.split(':').map(|h| u8::from_str_radix(h, 16).unwrap()).collect();
+            let fp: Vec<u8> = android_fp(rp).split(':').map(|h| u8::from_str_radix(h, 16).unwrap()).collect();
             format!("android:apk-key-hash:{}", b64url(&fp))
         }
     }
@@ -697,9 +714,9 @@ fn origin_of(rp: &Rp) -> Origin<'static> {
         None => Origin::Android(
             UnverifiedAssetLink::new(
                 "com.example.app",
-                ANDROID_FP,
-                "www.example.net",
-                Url::parse("https://www.example.net/.well-known/assetlinks.json").unwrap(),
+                android_fp(rp),
+                format!("www.{}", rp.effective),
+                Url::parse(&format!("https://www.{}/.well-known/assetlinks.json", rp.effective)).unwrap(),
             )
             .unwrap(),
         ),
@@ -967,6 +984,28 @@ fn resolve_id(r: &IdRef, creds: &[ModelCred], rp: &str) -> Vec<u8> {
         }
         IdRef::Last => creds.last().map(|c| c.id.clone()).unwrap_or_else(|| fallback(0)),
         IdRef::Unknown(b) => b.clone(),
+        IdRef::NearMiss(n, mode) => {
+            let mut id = pick(creds.iter().filter(|c| c.rp_id == rp).collect(), *n).unwrap_or_else(|| fallback(*n));
+            match mode % 6 {
+                0 => {
+                    id.pop();
+                }
+                1 => id.truncate(id.len() / 2),
+                2 => id.push(0),
+                3 => id.extend_from_slice(&[0xA5, 0, 0xFF, 1]),
+                4 => {
+                    if let Some(l) = id.last_mut() {
+                        *l ^= 1;
+                    }
+                }
+                _ => id.clear(),
+            }
+            // (in the unlikely case that this is another credential's id, make it nobody's)
+            if creds.iter().any(|c| c.id == id) {
+                id.extend_from_slice(b"-near-miss");
+            }
+            id
+        }
     }
 }
 
@@ -1219,6 +1258,24 @@ async fn run_op(
                     extensions,
                 },
             };
+            // relying parties hand the options over as JSON: now and then they travel that way
+            let request = if s.via_json == 0 {
+                request
+            } else {
+                let mut v = match serde_json::to_value(&request) {
+                    Ok(v) => v,
+                    Err(e) => return OpResult::Skipped(format!("options do not serialise: {e}")),
+                };
+                if s.via_json >= 2 {
+                    if let Some(sel) = v.pointer_mut("/publicKey/authenticatorSelection").and_then(|x| x.as_object_mut()) {
+                        sel.insert("residentKey".into(), serde_json::Value::from(if s.via_json == 2 { "mandatory" } else { "" }));
+                    }
+                }
+                match serde_json::from_value::<webauthn::CredentialCreationOptions>(v) {
+                    Ok(r) => r,
+                    Err(e) => return OpResult::Skipped(format!("options do not parse back: {e}")),
+                }
+            };
             let origin = origin_of(rp);
             let res = match &s.cdata {
                 CData::Default => {
@@ -1241,6 +1298,9 @@ async fn run_op(
                         polls,
                     )
                     .await
+                }
+                CData::Stamped => {
+                    CancelAfter::new(client.register(origin, request, StampedClientData::default()), op.cancel_after, polls).await
                 }
             };
             match res {
@@ -1320,6 +1380,9 @@ async fn run_op(
                     )
                     .await
                 }
+                CData::Stamped => {
+                    CancelAfter::new(client.authenticate(origin, request, StampedClientData::default()), op.cancel_after, polls).await
+                }
             };
             match res {
                 Cancellable::Cancelled(k) => OpResult::Cancelled(k),
@@ -1360,11 +1423,11 @@ async fn run_op(
             .zip_contents();
             let request = ctap2::make_credential::Request {
                 client_data_hash: s.cdh.clone().into(),
-                rp: ctap2::make_credential::PublicKeyCredentialRpEntity { id: s.rp_id.clone(), name: Some("Sim".into()) },
+                rp: ctap2::make_credential::PublicKeyCredentialRpEntity { id: s.rp_id.clone(), name: Some(sim_name(s.names, "Sim relying party")) },
                 user: webauthn::PublicKeyCredentialUserEntity {
                     id: s.user_id.clone().into(),
-                    display_name: "d".into(),
-                    name: "n".into(),
+                    display_name: sim_name(s.names, "d"),
+                    name: sim_name(s.names, "n"),
                 },
                 pub_key_cred_params: alg_params(&s.algs),
                 exclude_list: exclude.as_ref().map(|l| descriptors(l, &op.unknown_type, &op.list_transports)),
@@ -1603,6 +1666,31 @@ async fn run_op(
                 .unwrap_or(false);
             OpResult::SetCounter(ok)
         }
+    }
+}
+
+/// A caller's own ClientData: the extra member is a sequence number taken when asked for.
+#[derive(Default)]
+pub struct StampedClientData(std::sync::atomic::AtomicU32);
+
+impl passkey_client::ClientData<serde_json::Map<String, serde_json::Value>> for StampedClientData {
+    fn extra_client_data(&self) -> serde_json::Map<String, serde_json::Value> {
+        let n = self.0.fetch_add(1, std::sync::atomic::Ordering::Relaxed);
+        let mut m = serde_json::Map::new();
+        m.insert("request_seq".into(), serde_json::Value::from(n));
+        m
+    }
+    fn client_data_hash(&self) -> Option<Vec<u8>> {
+        None
+    }
+}
+
+/// entity names: 0 = short, 1 = 71 ASCII characters, 2 = 24 three-byte characters (72 bytes)
+fn sim_name(mode: u8, short: &str) -> String {
+    match mode {
+        1 => format!("{short}.a-rather-long-mailbox-name-for-a-person-with-many-names@mail.example.org"),
+        2 => format!("{short}\u{65e5}\u{672c}\u{8a9e}\u{306e}\u{8868}\u{793a}\u{540d}\u{306f}\u{9577}\u{304f}\u{306a}\u{308b}\u{3053}\u{3068}\u{304c}\u{3042}\u{308a}\u{307e}\u{3059}\u{3088}\u{306d}\u{3048}\u{3048}\u{3048}"),
+        _ => short.to_owned(),
     }
 }
 
